@@ -130,7 +130,12 @@ class Sim:
         self.w.advance(dt)
         for ep in self.eps.values():
             if ep.up:
-                self.event('tick', ep, lambda ep=ep: ep.step(), op=op, info={'dt': dt})
+                # the daemon's loop runs its sweep once per iteration and catches up one retransmission per pass; the
+                # clock is frozen between events here, so let it catch up now (each pass is an event of its own)
+                for _ in range(8):
+                    ev = self.event('tick', ep, lambda ep=ep: ep.step(), op=op, info={'dt': dt})
+                    if not ev.out:
+                        break
 
     def apply(self, op):
         k = op[0]
